@@ -46,6 +46,7 @@ import (
 	"github.com/functionx/fx-core/v8/x/staking/precompile"
 	fxstakingtypes "github.com/functionx/fx-core/v8/x/staking/types"
 
+	"fxverif/harness/evmx"
 	"fxverif/harness/hx"
 )
 
@@ -69,6 +70,14 @@ type world struct {
 	dead   bool     // a monitor fired: the rest of this history is not meaningful
 	lastRet []byte  // return data of the last successful eth transaction
 	seq    []string // op lines of this history including the one being executed (replay of a violation)
+	// block times: the time at which each height began (entries created at height h complete at timeAt[h] + unbonding
+	// time); lastJump = the first height after the last jump of the clock (a `mature H` is exact for H >= lastJump)
+	timeAt   map[int64]time.Time
+	lastJump int64
+	// a spender CONTRACT (account index `contract`, no key): its code is re-installed before every multiFrom op and calls
+	// the staking precompile once per (validator, shares) pair
+	contract     int
+	contractAddr common.Address
 }
 
 func newWorld(t *testing.T, out *hx.Out, nVal, nUsers int) *world {
@@ -86,6 +95,13 @@ func newWorld(t *testing.T, out *hx.Out, nVal, nUsers int) *world {
 		w.accs = append(w.accs, sg.AccAddress())
 		w.sign = append(w.sign, sg)
 	}
+	// the spender contract is the last account of the universe
+	w.contractAddr = common.HexToAddress("0x00000000000000000000000000000000C0DE0C11")
+	w.contract = len(w.accs)
+	w.accs = append(w.accs, sdk.AccAddress(w.contractAddr.Bytes()))
+	w.sign = append(w.sign, nil)
+	w.timeAt = map[int64]time.Time{s.Ctx.BlockHeight(): s.Ctx.BlockTime()}
+	w.lastJump = s.Ctx.BlockHeight()
 	for _, a := range w.accs {
 		w.bal0 = append(w.bal0, s.App.BankKeeper.GetBalance(s.Ctx, a, fxtypes.DefaultDenom).Amount)
 		w.spent = append(w.spent, sdkmath.ZeroInt())
@@ -268,11 +284,13 @@ func (w *world) dump() string {
 		for di, dst := range w.vals {
 			for d, a := range w.accs {
 				if r, err := app.StakingKeeper.GetRedelegation(ctx, a, src, dst); err == nil && len(r.Entries) > 0 {
-					var hs []string
+					var hs, bs, shs []string
 					for _, e := range r.Entries {
 						hs = append(hs, strconv.FormatInt(e.CreationHeight, 10))
+						bs = append(bs, e.InitialBalance.String())
+						shs = append(shs, decRaw(e.SharesDst))
 					}
-					rds = append(rds, fmt.Sprintf("%d:%d:%d:%d:%s", d, si, di, len(r.Entries), strings.Join(hs, "/")))
+					rds = append(rds, fmt.Sprintf("%d:%d:%d:%d:%s:%s:%s", d, si, di, len(r.Entries), strings.Join(hs, "/"), strings.Join(bs, "/"), strings.Join(shs, "/")))
 				}
 			}
 		}
@@ -296,13 +314,16 @@ func alKey(s string) string {
 
 // ethTx sends a signed eth transaction from the signer to the staking precompile; returns "" on success, else the
 // error text.  The whole call runs in a cache context that is only written when it did not panic (as runTx does).
-func (w *world) ethTx(from int, data []byte) (errText string) {
+func (w *world) ethTx(from int, data []byte) (errText string) { return w.ethTxTo(from, w.staked, data) }
+
+// ethTxTo: the same to any contract
+func (w *world) ethTxTo(from int, to common.Address, data []byte) (errText string) {
 	w.lastRet = nil
 	sg := w.sign[from]
 	cctx, write := w.s.Ctx.CacheContext()
 	res := hx.Try(func() error {
 		chainID := fxtypes.EIP155ChainID(cctx.ChainID())
-		tx := evmtypes.NewTx(chainID, w.s.App.EvmKeeper.GetNonce(cctx, sg.Address()), &w.staked, big.NewInt(0),
+		tx := evmtypes.NewTx(chainID, w.s.App.EvmKeeper.GetNonce(cctx, sg.Address()), &to, big.NewInt(0),
 			contract.DefaultGasCap, nil, nil, nil, data, nil)
 		tx.From = sg.Address().Bytes()
 		if err := tx.Sign(ethtypes.LatestSignerForChainID(chainID), sg); err != nil {
@@ -503,6 +524,7 @@ func (w *world) apply(line string) string {
 	}
 	app := w.s.App
 	before := w.snapshot()
+	allowAll0 := w.allowSnap()
 	kind := "ok"
 	class := f[0]
 	ret := ""
@@ -519,15 +541,32 @@ func (w *world) apply(line string) string {
 		}
 		w.s.Ctx = w.s.Ctx.WithBlockHeight(w.s.Ctx.BlockHeight() + 1).WithBlockTime(w.s.Ctx.BlockTime().Add(5 * time.Second))
 		w.syncHeaderInfo()
+		w.timeAt[w.s.Ctx.BlockHeight()] = w.s.Ctx.BlockTime()
 	case "mature":
 		// the unbonding period passes, then the whole staking EndBlocker runs: validator-set update, validators whose
 		// unbonding period is over become Unbonded, every mature unbonding-delegation entry is paid back from the not-bonded
 		// pool, every mature redelegation entry is dropped
+		// `mature H`: only the unbonding periods that began at a height <= H are over (the clock is set to the time of block H
+		// + the unbonding time; blocks are 5 s apart): entries created later stay, validators that left the active set later
+		// stay Unbonding.  `mature` without argument: everything matures.
 		ut, err := app.StakingKeeper.UnbondingTime(w.s.Ctx)
 		if err != nil {
 			panic(err)
 		}
-		w.s.Ctx = w.s.Ctx.WithBlockTime(w.s.Ctx.BlockTime().Add(ut + time.Second))
+		target := w.s.Ctx.BlockTime().Add(ut + time.Second)
+		if len(f) > 1 {
+			H, _ := strconv.ParseInt(f[1], 10, 64)
+			if t0, ok := w.timeAt[H]; ok && H < w.s.Ctx.BlockHeight() {
+				target = t0.Add(ut + time.Second)
+				if target.Before(w.s.Ctx.BlockTime()) {
+					// the clock cannot go back (H lies before the last jump): not generated; the model would differ
+					target = w.s.Ctx.BlockTime()
+				}
+				class = "mature-partial"
+			}
+		}
+		ubdBefore, redBefore := w.entryCounts()
+		w.s.Ctx = w.s.Ctx.WithBlockTime(target)
 		w.syncHeaderInfo()
 		if r := hx.Try(func() error {
 			_, err := app.StakingKeeper.BlockValidatorUpdates(w.s.Ctx)
@@ -537,6 +576,11 @@ func (w *world) apply(line string) string {
 		}
 		w.s.Ctx = w.s.Ctx.WithBlockHeight(w.s.Ctx.BlockHeight() + 1).WithBlockTime(w.s.Ctx.BlockTime().Add(5 * time.Second))
 		w.syncHeaderInfo()
+		w.timeAt[w.s.Ctx.BlockHeight()] = w.s.Ctx.BlockTime()
+		w.lastJump = w.s.Ctx.BlockHeight()
+		ubdAfter, redAfter := w.entryCounts()
+		w.out.Count(fmt.Sprintf("maturity:%s/ubd-entries matured=%s left=%s/redelegation-entries matured=%s left=%s", class,
+			some(ubdBefore-ubdAfter), some(ubdAfter), some(redBefore-redAfter), some(redAfter)))
 	case "alloc":
 		a := ints(1)
 		amt := sdkmath.NewIntFromBigInt(bigOf(f[2]))
@@ -732,9 +776,98 @@ func (w *world) apply(line string) string {
 		} else if allow0.Cmp(allow1) != 0 {
 			w.violate(fmt.Sprintf("failed transferFromShares changed the allowance from %s to %s", allow0, allow1))
 		}
+	case "multiFrom":
+		// ONE transaction of the spender contract: it calls transferFromShares(v, from, to, x) for every (v, x) pair;
+		// `atomic`: a failing call makes the contract revert (everything is undone); `each`: the contract swallows the
+		// failure of a call (that call alone is undone)
+		mode := f[1]
+		var nums []int
+		for _, x := range f[2:5] {
+			n, _ := strconv.Atoi(x)
+			nums = append(nums, n)
+		}
+		sp, from, to := nums[0], nums[1], nums[2]
+		if sp != w.contract || (mode != "atomic" && mode != "each") || (len(f)-5)%2 != 0 || len(f)-5 > 12 {
+			return "bad-op"
+		}
+		type item struct {
+			v int
+			x *big.Int
+		}
+		var items []item
+		var nodes []*evmx.Node
+		for i := 5; i+1 < len(f); i += 2 {
+			v, _ := strconv.Atoi(f[i])
+			x := bigOf(f[i+1])
+			if v < 0 || v >= w.nVal {
+				return "bad-op"
+			}
+			data, err := precompile.NewTransferFromSharesMethod(nil).PackInput(fxstakingtypes.TransferFromSharesArgs{
+				Validator: w.vals[v].String(), From: common.BytesToAddress(w.accs[from]), To: common.BytesToAddress(w.accs[to]), Shares: x})
+			if err != nil {
+				panic(err)
+			}
+			items = append(items, item{v, x})
+			// each call is given 4M gas (of the 30M of the transaction): a FAILED precompile call burns all the gas it was
+			// given, so forwarding "all" gas would leave the later calls of an `each` group nothing to run on (gas is not modelled)
+			nodes = append(nodes, &evmx.Node{Op: "pre", Kind: evmx.KCall, To: w.staked, Data: data, Swallow: mode == "each", Gas: 4_000_000})
+		}
+		if err := evmx.Install(w.s.Ctx, app, w.contractAddr, evmx.Assemble(nodes)); err != nil {
+			panic(err)
+		}
+		before = w.snapshot()
+		allow0 := map[int]*big.Int{}
+		for _, it := range items {
+			allow0[it.v] = app.StakingKeeper.GetAllowance(w.ctx(), w.vals[it.v], w.accs[from], w.accs[sp])
+		}
+		caller := g0user(w)
+		errText := w.ethTxTo(caller, w.contractAddr, nil)
+		if os.Getenv("C11_DEBUG") != "" && errText != "" {
+			fmt.Fprintln(os.Stderr, "multiFrom error:", errText)
+		}
+		kind = kindOf(errText, false)
+		after := w.snapshot()
+		// per validator: the allowance went down by exactly the shares that left the owner's delegation, the same shares
+		// arrived at the recipient, the validator's tokens and total shares did not move
+		want := map[int]*big.Int{}
+		for _, it := range items {
+			if want[it.v] == nil {
+				want[it.v] = new(big.Int)
+			}
+			want[it.v].Add(want[it.v], it.x)
+		}
+		moved := 0
+		for v, total := range want {
+			a1 := app.StakingKeeper.GetAllowance(w.ctx(), w.vals[v], w.accs[from], w.accs[sp])
+			dAllow := new(big.Int).Sub(allow0[v], a1)
+			dFrom := before.sh(from, v).Sub(after.sh(from, v))
+			dTo := after.sh(to, v).Sub(before.sh(to, v))
+			if from == to {
+				if !dFrom.IsZero() {
+					w.violate(fmt.Sprintf("multi-call transferFromShares with from == to changed the delegation at validator %d by %s", v, dFrom))
+				}
+			} else if !dFrom.Equal(dTo) || !dFrom.Equal(sdkmath.LegacyNewDecFromBigInt(dAllow)) {
+				w.violate(fmt.Sprintf("multi-call transferFromShares (%s) at validator %d: allowance -%s, sender -%s, recipient +%s (not the same amount)", mode, v, dAllow, dFrom, dTo))
+			}
+			if mode == "atomic" && kind == "ok" && dAllow.Cmp(total) != 0 {
+				w.violate(fmt.Sprintf("successful multi-call transferFromShares used %s of the allowance at validator %d, the calls moved %s", dAllow, v, total))
+			}
+			if dAllow.Sign() < 0 || dAllow.Cmp(total) > 0 {
+				w.violate(fmt.Sprintf("multi-call transferFromShares changed the allowance at validator %d by %s (requested %s)", v, dAllow, total))
+			}
+			if !after.valTok[v].Equal(before.valTok[v]) || !after.valShare[v].Equal(before.valShare[v]) {
+				w.violate(fmt.Sprintf("multi-call transferFromShares changed validator %d tokens/shares", v))
+			}
+			if dAllow.Sign() > 0 {
+				moved++
+			}
+		}
+		class = fmt.Sprintf("multiFrom-%s/validators=%d/calls=%d/moved-at=%d", mode, len(want), len(items), moved)
+		w.out.Count("scenario:" + class + ":" + kind)
 	default:
 		return "bad-op"
 	}
+	w.checkAllowFrame(f, allowAll0)
 	w.out.Count(f[0] + ":" + kind)
 	w.out.Nontrivial(class + ":" + kind)
 	if kind == "panic" {
@@ -749,6 +882,93 @@ func (w *world) apply(line string) string {
 		w.invariants(f[0])
 	}
 	return kind + " | " + w.dump() + ret
+}
+
+// allowSnap: every allowance record of the store, keyed by (validator, owner, spender) as stored
+func (w *world) allowSnap() map[string]string {
+	m := map[string]string{}
+	w.s.App.StakingKeeper.IterateAllAllowance(w.ctx(), func(valAddr sdk.ValAddress, owner, spender sdk.AccAddress, a *big.Int) bool {
+		if a.Sign() != 0 {
+			m[fmt.Sprintf("%d:%d:%d", w.valIdx(valAddr), w.accIdx(owner), w.accIdx(spender))] = a.String()
+		}
+		return false
+	})
+	return m
+}
+
+// checkAllowFrame: an operation changes no allowance other than the one(s) it names — approve: (validator, caller,
+// spender); transferFrom / multiFrom: (validator, from, spender) of each call; everything else: none (allowances are per
+// validator: an approval or a transfer at one validator leaves the same pair's allowance at every other validator alone)
+func (w *world) checkAllowFrame(f []string, before map[string]string) {
+	if w.dead {
+		return
+	}
+	named := map[string]bool{}
+	switch f[0] {
+	case "approve":
+		named[fmt.Sprintf("%s:%s:%s", f[3], f[1], f[2])] = true
+	case "transferFrom":
+		named[fmt.Sprintf("%s:%s:%s", f[4], f[2], f[1])] = true
+	case "multiFrom":
+		for i := 5; i+1 < len(f); i += 2 {
+			named[fmt.Sprintf("%s:%s:%s", f[i], f[3], f[2])] = true
+		}
+	}
+	after := w.allowSnap()
+	keys := map[string]bool{}
+	for k := range before {
+		keys[k] = true
+	}
+	for k := range after {
+		keys[k] = true
+	}
+	var ks []string
+	for k := range keys {
+		ks = append(ks, k)
+	}
+	sort.Strings(ks)
+	for _, k := range ks {
+		if before[k] != after[k] && !named[k] {
+			w.violate(fmt.Sprintf("%s changed an allowance it does not name: (validator:owner:spender) %s from %q to %q", f[0], k, before[k], after[k]))
+			return
+		}
+	}
+}
+
+func some(n int) string {
+	switch {
+	case n <= 0:
+		return "0"
+	case n == 1:
+		return "1"
+	default:
+		return ">1"
+	}
+}
+
+// g0user: the first account with a key (sender of the transactions that are not attributed to anybody)
+func g0user(w *world) int {
+	for i := range w.accs {
+		if w.sign[i] != nil {
+			return i
+		}
+	}
+	panic("no user")
+}
+
+// entryCounts: number of unbonding-delegation / redelegation entries of the tracked accounts
+func (w *world) entryCounts() (ubd, red int) {
+	for _, a := range w.accs {
+		us, _ := w.s.App.StakingKeeper.GetUnbondingDelegations(w.ctx(), a, 1000)
+		for _, u := range us {
+			ubd += len(u.Entries)
+		}
+		rs, _ := w.s.App.StakingKeeper.GetRedelegations(w.ctx(), a, 1000)
+		for _, r := range rs {
+			red += len(r.Entries)
+		}
+	}
+	return
 }
 
 // thirdParties: the rewards the SDK computes right now (period ended on a branch of the state) for every delegator of
@@ -1318,6 +1538,70 @@ func (g *gen) allowanceRace() []string {
 	return lines
 }
 
+// multiScenario: an owner approves the spender CONTRACT at one or more validators; then ONE transaction of the contract
+// calls transferFromShares once per (validator, shares) pair: everything within the allowances (all calls succeed), the
+// last call one share above its allowance or above the delegation (atomic: the whole transaction, including the calls
+// that had succeeded, is undone; each: only that call), the same validator twice (the allowance is shared).
+func (g *gen) multiScenario() []string {
+	w, r := g.w, g.rng
+	us := g.users()
+	type pos struct {
+		v     int
+		whole *big.Int
+	}
+	owner := -1
+	var ps []pos
+	for _, o := range r.Perm(len(us)) {
+		ps = nil
+		for v := 0; v < w.nVal; v++ {
+			if wh := g.sharesOf(us[o], v).TruncateInt().BigInt(); wh.Cmp(big.NewInt(4)) >= 0 {
+				ps = append(ps, pos{v, wh})
+			}
+		}
+		if len(ps) > 0 {
+			owner = us[o]
+			break
+		}
+	}
+	if owner < 0 {
+		return nil
+	}
+	to := hx.Pick(r, us)
+	if r.Intn(8) == 0 {
+		to = owner
+	}
+	mode := "atomic"
+	if r.Intn(3) == 0 {
+		mode = "each"
+	}
+	var lines, calls []string
+	bad := r.Intn(3) // 0: some call exceeds its allowance / the delegation
+	for i, p := range ps {
+		allow := new(big.Int).Add(new(big.Int).Rand(r, p.whole), big.NewInt(1)) // 1 … whole
+		if r.Intn(3) == 0 {
+			allow = p.whole
+		}
+		lines = append(lines, fmt.Sprintf("approve %d %d %d %s", owner, w.contract, p.v, allow))
+		x := new(big.Int).Set(allow)
+		switch {
+		case bad == 0 && i == len(ps)-1:
+			x.Add(x, big.NewInt(1))
+			calls = append(calls, fmt.Sprintf("%d %s", p.v, x))
+		case r.Intn(3) == 0 && allow.Cmp(big.NewInt(2)) >= 0:
+			// the same validator twice: the two calls share the allowance
+			a := new(big.Int).Add(new(big.Int).Rand(r, new(big.Int).Sub(allow, big.NewInt(1))), big.NewInt(1))
+			calls = append(calls, fmt.Sprintf("%d %s", p.v, a), fmt.Sprintf("%d %s", p.v, new(big.Int).Sub(allow, a)))
+		default:
+			calls = append(calls, fmt.Sprintf("%d %s", p.v, x))
+		}
+	}
+	if r.Intn(2) == 0 {
+		lines = append(lines, "block")
+	}
+	lines = append(lines, fmt.Sprintf("multiFrom %s %d %d %d %s", mode, w.contract, owner, to, strings.Join(calls, " ")))
+	return lines
+}
+
 func (g *gen) users() []int {
 	var u []int
 	for i := range g.w.accs {
@@ -1416,12 +1700,23 @@ func (g *gen) next() string {
 			return ls[0]
 		}
 	}
+	if r.Intn(22) == 0 {
+		if ls := g.multiScenario(); len(ls) > 0 {
+			g.queue = ls[1:]
+			return ls[0]
+		}
+	}
 	us := g.users()
 	v := r.Intn(w.nVal)
 	hs := g.holders(v)
 	roll := r.Intn(100)
 	// the unbonding period passes (unbonding entries are paid back, redelegations complete, Unbonding -> Unbonded)
-	if r.Intn(45) == 0 {
+	if r.Intn(35) == 0 {
+		cur := w.ctx().BlockHeight()
+		if r.Intn(2) == 0 && w.lastJump < cur {
+			// only the unbonding periods that began up to block H are over
+			return fmt.Sprintf("mature %d", w.lastJump+r.Int63n(cur-w.lastJump))
+		}
 		return "mature"
 	}
 	// validator status changes: a validator with delegators leaves the active set (jailed) and may come back
@@ -1463,7 +1758,8 @@ func (g *gen) next() string {
 		type al struct{ v, o, s int }
 		var als []al
 		w.s.App.StakingKeeper.IterateAllAllowance(w.ctx(), func(valAddr sdk.ValAddress, owner, spender sdk.AccAddress, a *big.Int) bool {
-			if a.Sign() > 0 {
+			// (the spender contract has no key: its allowances are used by multiFrom only)
+			if a.Sign() > 0 && w.user(w.accIdx(spender)) {
 				als = append(als, al{w.valIdx(valAddr), w.accIdx(owner), w.accIdx(spender)})
 			}
 			return false
@@ -1701,7 +1997,7 @@ func TestC11(t *testing.T) {
 					if len(fs) > 3 {
 						nVal = len(fs) - 3
 						if n, err := strconv.Atoi(fs[1]); err == nil {
-							nUsers = n - nVal
+							nUsers = n - nVal - 1 // the last account is the spender contract
 						}
 					}
 				}
